@@ -226,7 +226,7 @@ def replay(name, s1, s2):
 
 def configs(tier):
     t = 60 if tier == "quick" else 300
-    pairs = [(1, 2), (3, 7)] if tier == "quick" else [(1, 2), (3, 7), (11, 5), (21, 34), (8, 13)]
+    pairs = [(1, 2), (3, 7)] if tier == "quick" else [(1, 2), (3, 7), (11, 5), (21, 34), (8, 13), (2, 1), (55, 89), (100, 7), (17, 17), (1234, 4321), (6, 28), (31, 127)]
     cfgs = []
     for name in MODELS:
         for a, b in pairs:
